@@ -112,7 +112,19 @@ fn check() {
     let ts: Vec<u64> = vec![0, 1, 2, 4];
     let horizon = slot * slots as u32 + Duration::from_millis(4000 + 1000 + 2500);
     let rt = tokio::runtime::Builder::new_multi_thread().worker_threads(12).enable_all().build().unwrap();
+    // how late does this runtime run its timers? (a loaded machine delays the relay's ticker and the observation alike:
+    // the late bound, a deadline, is extended by what was measured; the early bound needs no such allowance)
+    let max_lag_ms = Arc::new(AtomicU64::new(0));
+    let lag = max_lag_ms.clone();
     let outcomes: Vec<Outcome> = rt.block_on(async {
+        tokio::spawn(async move {
+            loop {
+                let t0 = Instant::now();
+                tokio::time::sleep(Duration::from_millis(20)).await;
+                let over = t0.elapsed().as_millis().saturating_sub(20) as u64;
+                lag.fetch_max(over, Ordering::Relaxed);
+            }
+        });
         let contexts: Arc<Contexts> = Default::default();
         let mut hs = vec![];
         for &t in &ts {
@@ -168,7 +180,7 @@ fn check() {
         }
         // closed no later than T + ticker (1 s) + slack after the last byte (the horizon leaves room for it)
         let last = o.sends.last().cloned().unwrap_or(0.0);
-        let deadline = last + 0.4 + t + 1.0 + 1.5;
+        let deadline = last + 0.4 + t + 1.0 + 1.5 + 2.0 * max_lag_ms.load(Ordering::Relaxed) as f64 / 1000.0;
         match o.closed_at {
             Some(at) if idle_close && at > deadline => chk.violation("idle.late", "closed-too-late", format!("T={} {pre_name} pattern {:?}: last byte {:.3}s, closed {:.3}s", o.t, o.pattern, last, at), replay),
             None if horizon.as_secs_f64() > deadline + 0.2 => chk.violation("idle.late", "idle-tunnel-never-closed", format!("T={} {pre_name} pattern {:?}: last byte {:.3}s, still open at {:.1}s ({})", o.t, o.pattern, last, horizon.as_secs_f64(), o.result), replay),
@@ -183,7 +195,7 @@ fn check() {
         "states": distinct.len(), "transitions": n * slots as u64, "traces_validated_against_impl": n,
         "evaluations": n, "distinct_nontrivial": closed_idle.load(Ordering::Relaxed),
         "rule": format!("all 3^{} traffic patterns over half-second slots (silent / client byte / origin byte) x T in {{0,1,2}} s (+ T = 4 s for patterns with at most 2-3 bytes, for the late bound) x pre-state {{open, client half-closed, origin half-closed}} (quick tier thins the T=0 and half-closed families), run concurrently on the real copy_bidi with the real clock. non-trivial = tunnels closed with 'idle timeout'. states = distinct (T, pre-state, result, half-second bucket of the close time)", slots),
-        "patterns": n, "slots": slots,
+        "patterns": n, "slots": slots, "max_timer_lag_ms": max_lag_ms.load(Ordering::Relaxed),
         "samples": [{"T": 1, "pattern": [1, 0, 2, 0, 0, 0, 0], "expect": "closed between 2.0 s and 4.9 s (1 s after the origin byte at 1.0 s, plus ticker and slack)"}],
     });
     chk.finish(
